@@ -15,22 +15,23 @@ Open Scope Z_scope.
    here by the model's reading of them:
        value.startswith('urn') = prefix "urn" v      '://' in value = contains "://" v
        len(value) = slen v                           len(meaning) = slen m
-   and str(x) of a str argument is read as x. *)
+   and str(x) of a str argument is read as x.  (The observation parameters of the generated definition come
+   after the function's own parameters, sorted by name: len(meaning), len(value), '://' in value,
+   value.startswith('urn').) *)
 Theorem tint_coded_concept_init_C17 : forall v s m ver,
-  bind (t_coded_concept_init v s m ver (prefix "urn" v) (contains "://" v) (slen v) (slen m))
+  bind (t_coded_concept_init v s m ver (slen m) (slen v) (contains "://" v) (prefix "urn" v))
        (fun '(cv, lcv, urn, cm, csd, csv) => Ok (DS cv lcv urn (Some cm) (Some csd) csv true))
   = init v s m ver.
 Proof.
   intros v s m ver.
   unfold t_coded_concept_init, init, select_attr, is_uri_form.
-  rewrite !Z.gtb_ltb.
-  destruct (prefix "urn" v || contains "://" v), (16 <? slen v), (64 <? slen m), ver; reflexivity.
+  destruct (prefix "urn" v), (contains "://" v), ver; py_crush.
 Qed.
 Print Assumptions tint_coded_concept_init_C17.
 
 (* the attribute-choice rule on its own (theorems C17 store_* are stated over select_attr) *)
 Theorem tint_coded_concept_attr_C17 : forall v s m ver cv lcv urn cm csd csv,
-  t_coded_concept_init v s m ver (prefix "urn" v) (contains "://" v) (slen v) (slen m)
+  t_coded_concept_init v s m ver (slen m) (slen v) (contains "://" v) (prefix "urn" v)
     = Ok (cv, lcv, urn, cm, csd, csv) ->
   cv = attr_slot ACodeValue (DS cv lcv urn (Some cm) (Some csd) csv true) /\
   match select_attr v with
@@ -40,9 +41,12 @@ Theorem tint_coded_concept_attr_C17 : forall v s m ver cv lcv urn cm csd csv,
   end.
 Proof.
   intros v s m ver cv lcv urn cm csd csv.
-  unfold t_coded_concept_init, select_attr, is_uri_form.
-  rewrite !Z.gtb_ltb.
-  destruct (prefix "urn" v || contains "://" v), (16 <? slen v), (64 <? slen m), ver;
-    cbn; intros H; inversion H; subst; auto.
+  intros H.
+  assert (E : init v s m ver = Ok (DS cv lcv urn (Some cm) (Some csd) csv true))
+    by (rewrite <- tint_coded_concept_init_C17, H; reflexivity).
+  unfold init, select_attr, is_uri_form in *.
+  destruct (64 <? slen m); [discriminate E|].
+  destruct (prefix "urn" v || contains "://" v); [|destruct (16 <? slen v)];
+    inversion E; subst; cbn; auto.
 Qed.
 Print Assumptions tint_coded_concept_attr_C17.
